@@ -26,6 +26,9 @@ def run(ctx):
         try:
             mod = importlib.import_module("fam." + fam)
             fn = mod.c11
+        except ModuleNotFoundError as ex:
+            ctx.note("family %s is not part of this revision (%s)" % (fam, ex))
+            continue
         except Exception as ex:
             ctx.broken.append("C16: family %s provides no items (%s)" % (fam, ex))
             continue
